@@ -20,4 +20,28 @@ for sel in ("SEL_VIRTUAL", "SEL_FD"):
                        functions=["sf_open_virtual" if sel == "SEL_VIRTUAL" else "sf_open_fd", "psf_allocate", "psf_init_files", "psf_set_file"],
                        bounds="mode symbolic, callback set complete or missing any one callback / close_desc symbolic, SD2 or not"))
 
+# (file, K, D, TAIL, CH, rate): the embedded file's geometry is on the grid (every branch of the open gate on it folds: the handle's
+# function pointers stay constants, R1/R5); data bytes, junk bytes are symbolic; one configuration keeps the rate symbolic.
+EMB = [("au", 20, 0, 0, 1, 8000), ("au", 20, 2, 0, 1, 8000), ("au", 20, 3, 0, 1, 8000), ("au", 20, 4, 0, 1, None), ("au", 20, 4, 3, 1, 8000),
+       ("au", 20, 8, 0, 2, 8000), ("au", 20, 8, 2, 2, 44100), ("au", 20, 5, 1, 2, 8000), ("au", 24, 4, 0, 1, 8000), ("au", 40, 6, 4, 1, 8000),
+       ("au", 1, 8, 4, 1, 8000), ("au", 4, 2, 0, 1, 8000),
+       ("wav", 20, 0, 0, 1, 8000), ("wav", 20, 4, 0, 1, 8000), ("wav", 20, 3, 0, 1, 8000), ("wav", 1, 8, 3, 2, 44100), ("wav", 7, 6, 0, 1, 22050)]
+for ftag, k, d, tail, ch, sr in EMB:
+    probe = False
+    dd = {"K": k, "DMAX": 8, "D_FIXED": d, "TAIL_FIXED": tail, "CH_FIXED": ch, "PX_CAP": 112, "PX_MAXIO": 64, "PX_EINTR_MAX": 0, "SNP_MAX": 40, "PSF_MEMSET_MAX": 64,
+          "LIBSNDFILE_VERIF_BUFFER_LEN": 64}
+    if sr is not None: dd["SR_FIXED"] = sr
+    if ftag == "wav": dd["FILE_WAV"] = 1; dd["DATA0_FIXED"] = 0x12 if d != 6 else 0x77
+    if probe: dd["PROBE_embedshort"] = 1
+    HARNESSES.append(H("embed_open.%s.k%d.d%d.t%d.ch%d.sr%s%s" % (ftag, k, d, tail, ch, sr if sr is not None else "sym", ".probe_embedshort" if probe else ""), "C14/embed_open.c",
+                       link=["common", "file_io", "pcm", "ulaw", "alaw", "float32", "double64"] + (["au"] if ftag == "au" else ["wav", "wavlike", "chunk", "strings", "broadcast", "cart", "id3", "chanmap", "audio_detect", "command"]),
+                       stubs=["psf_log_printf", "psf_memset"], defines=dd,
+                       unwind=10, unwindset=["snprintf.0:41", "snprintf.1:41", "psf_memset.0:65", "strlen.0:70", "psf_binheader_readf.0:20", "psf_binheader_readf.1:40", "psf_rand_int32.0:34",
+                                             "v_read.0:65", "read.0:65", "sf_error_number.0:230"] + ["main.%d:45" % i for i in range(12)], checks="mem", fsa=128,
+                       include_env=("log_stub", "posix_model", "memset_model", "snprintf_model", "clock_model"), timeout=300,
+                       functions=["psf_open_file", "guess_file_type", "au_open/au_read_header" if ftag == "au" else "wav_open/wav_read_header/wavlike_read_fmt_chunk", "pcm_init",
+                                  "psf_fread/psf_fseek/psf_ftell/psf_get_filelen (real file_io.c)", "sf_readf_short", "sf_seek"],
+                       bounds="%s/PCM16 file embedded at offset %d: %d data bytes, %d channel(s), rate %s, %d trailing junk bytes (grid); data and junk bytes symbolic%s; header states the exact data size" % (
+                           ftag.upper(), k, d, ch, sr if sr is not None else "symbolic", tail, " (first four data bytes fixed: the parser branches on wvpk/OggS there)" if ftag == "wav" else "")))
+
 META = {"assumptions": ["E-posix model of read/write/lseek/fstat/close"], "outside": ["the kernel's real behaviour; parsers/codecs only use these primitives (structural argument)", "pipe route: see DESIGN"]}
